@@ -1,6 +1,7 @@
 package vsched
 
 import (
+	"sync/atomic"
 	"reflect"
 	"sync"
 	"time"
@@ -315,3 +316,9 @@ func DBPoint[T any](db T) T {
 	do(request{kind: OpTouch, obj: reflect.ValueOf(db).Pointer()})
 	return db
 }
+
+var executionGen atomic.Uint64
+
+// ExecutionGen changes with every controlled execution (Run); shims use it to drop state cached in
+// package-level variables of the code under test.
+func ExecutionGen() uint64 { return executionGen.Load() }
